@@ -242,20 +242,62 @@ def _prober(cfg):
     return p
 
 
+def run_getitem_freshness(case, ctx, mon):
+    """sketch[key] must equal query(key) also when the table changed while n_added() reads the same: (a) the user rewrites the
+    documented `cms` attribute in place, (b) a sketch whose bookkeeping wrapped to 0 (64 self-merges) is merged in."""
+    cfg = case["cfg"]
+    kind = cfg["kind"]
+    a = state.make(cfg)
+    k1, k2 = b"first-key", b"second-key"
+    a.add(k1, 3)
+    x0, q0 = a[k1], a.query(k1)
+    mon.check(x0 == q0, "sketch[key]==query(key)", kind=kind, when="start", getitem=float(x0), query=float(q0))
+    saved = a.cms.copy()
+    a.cms[...] = 0  # the user clears the table in place
+    x1, q1 = a[k1], a.query(k1)
+    mon.check(x1 == q1, "sketch[key]==query(key)", kind=kind, when="after the table was cleared through the cms attribute", getitem=float(x1), query=float(q1))
+    a.cms[...] = saved
+    x2, q2 = a[k1], a.query(k1)
+    mon.check(x2 == q2, "sketch[key]==query(key)", kind=kind, when="after the table was restored through the cms attribute", getitem=float(x2), query=float(q2))
+    for _ in range(64):
+        a.merge(a)
+    mon.check(int(a.n_added()) == 0, "harness:bookkeeping-wrapped-to-zero", got=int(a.n_added()))
+    x3 = a[k2]
+    b = state.make(cfg)
+    b.add(k2, 5)
+    for _ in range(64):
+        b.merge(b)
+    a.merge(b)
+    x4, q4 = a[k2], a.query(k2)
+    mon.check(x4 == q4, "sketch[key]==query(key)", kind=kind, when="after merging a sketch whose n_added() had wrapped to 0 (n_added() unchanged, table changed)",
+              getitem=float(x4), query=float(q4), before=float(x3))
+    mon.count("getitem_freshness_cases")
+    mon.nontrivial(True)
+
+
 def gen_cases(ctx):
     rng = ctx.rng("cases")
+    for kind in state.CMS_KINDS:
+        c = {"kind": kind, "width": 5, "depth": 3}
+        if kind != "linear":
+            c.update(max_count=2**32 - 1, num_reserved=15)
+        yield {"getitem_freshness": True, "cfg": c}
     n = 1500 if ctx.quick else 10**9
     for _ in range(n):
         yield gen_case(rng, ctx)
 
 
+def run_any(case, ctx, mon):
+    (run_getitem_freshness if case.get("getitem_freshness") else run_case)(case, ctx, mon)
+
+
 def run(ctx, mon):
     state.numba_seed(1)
-    run_cases(ctx, mon, gen_cases(ctx), run_case)
+    run_cases(ctx, mon, gen_cases(ctx), run_any)
 
 
 def replay(case, ctx, mon):
-    run_case(case, ctx, mon)
+    run_any(case, ctx, mon)
 
 
 def floors(mon, ctx):
@@ -264,6 +306,7 @@ def floors(mon, ctx):
             mon.floor(f"ngram branch {cls} for {kind}", int(f"{kind}:{cls}" in mon.classes["ngram_branch"]), 1)
         for t in ("ulist", "udict", "add", "ngram", "ungram"):
             mon.floor(f"{t} pairs for {kind}", mon.counters[f"pairs:{kind}:{t}"], 20)
+    mon.floor("getitem freshness cases (table changed under an unchanged n_added())", mon.counters["getitem_freshness_cases"], 3)
     mon.floor("sketch[key] looked up before and after an operation", mon.counters["getitem_lookups_repeated_across_an_operation"], 200)
     mon.floor("cases with a shared cell", mon.counters["cases_with_shared_cell"], 100)
     mon.floor("log cases starting near a batch end", mon.counters["log_cases_starting_near_a_batch_end"], 30)
